@@ -1154,4 +1154,482 @@ Section OpsProofs.
     pmx E P eqb pr ts fresh [p1; p2] t = Ok (cs, f, t') ->
     exists ds, pmx E P eqb pr ts fresh [p2; p1] t = Ok (ds, f, t') /\ exchanged cs ds.
   Proof. intros. eapply crossover_of_sym; eauto using pmx_step_sym. Qed.
+
+  (* ================================================================ PMX: permutation validity
+     (termination of the replacement chains = injectivity of the segment map) *)
+  Notation lookup := (lookup E eqb).
+  Notation chase := (chase E eqb).
+  Lemma eqb_refl x : eqb x x = true.
+  Proof. now apply eqb_spec. Qed.
+  Lemma eqb_neq x y : eqb x y = false <-> x <> y.
+  Proof. rewrite <- eqb_spec. destruct (eqb x y); split; congruence. Qed.
+
+  (* ---- association lists *)
+  Definition inv (m : list (E * E)) : list (E * E) := map (fun ab => (snd ab, fst ab)) m.
+
+  Lemma lookup_some_In x y m : lookup x m = Some y -> In (x, y) m.
+  Proof.
+    induction m as [|[k v] r IH]; simpl; [discriminate|].
+    destruct (eqb x k) eqn:Ek.
+    - intro H. inversion H; subst. apply eqb_spec in Ek. subst. now left.
+    - intro H. right. auto.
+  Qed.
+
+  Lemma lookup_none x m : lookup x m = None <-> ~ In x (map fst m).
+  Proof.
+    induction m as [|[k v] r IH]; simpl; [tauto|].
+    destruct (eqb x k) eqn:Ek.
+    - apply eqb_spec in Ek. subst. split; [discriminate|]. intro H. exfalso. apply H. now left.
+    - apply eqb_neq in Ek. rewrite IH. split; [intros H [C|C]; [congruence|auto]|tauto].
+  Qed.
+
+  Lemma In_lookup x y m : NoDup (map fst m) -> In (x, y) m -> lookup x m = Some y.
+  Proof.
+    induction m as [|[k v] r IH]; simpl; [tauto|]. intros ND [H|H].
+    - inversion H; subst. now rewrite eqb_refl.
+    - inversion ND; subst. destruct (eqb x k) eqn:Ek.
+      + apply eqb_spec in Ek. subst. exfalso. apply H2. apply (in_map fst) in H. exact H.
+      + auto.
+  Qed.
+
+  Inductive steps (m : list (E * E)) : nat -> E -> E -> Prop :=
+    | st0 x : steps m 0 x x
+    | stS k x z y : In (x, z) m -> steps m k z y -> steps m (S k) x y.
+
+  Lemma chase_steps m : forall fuel x y, chase fuel m x = Ok y ->
+    exists k, (k < fuel)%nat /\ steps m k x y /\ ~ In y (map fst m).
+  Proof.
+    induction fuel as [|f IH]; intros x y H; simpl in H; [discriminate|].
+    destruct (lookup x m) as [z|] eqn:El.
+    - destruct (IH _ _ H) as (k & Lk & St & N). exists (Datatypes.S k). repeat split; auto; [lia|].
+      econstructor; eauto. now apply lookup_some_In.
+    - inversion H; subst. exists 0%nat. repeat split; [lia|constructor|now apply lookup_none].
+  Qed.
+
+  Lemma steps_chase m : NoDup (map fst m) -> forall k x y, steps m k x y -> ~ In y (map fst m) ->
+    forall fuel, (k < fuel)%nat -> chase fuel m x = Ok y.
+  Proof.
+    intros ND. induction 1 as [x|k x z y Hin Hs IH]; intros N fuel L.
+    - destruct fuel; [lia|]. simpl. apply lookup_none in N. now rewrite N.
+    - destruct fuel; [lia|]. simpl. rewrite (In_lookup _ _ _ ND Hin). apply IH; auto. lia.
+  Qed.
+
+  Lemma steps_snoc m : forall k x z y, steps m k x z -> In (z, y) m -> steps m (S k) x y.
+  Proof.
+    induction 1 as [x|k x w z Hin Hs IH]; intro H.
+    - econstructor; eauto. constructor.
+    - econstructor; eauto.
+  Qed.
+
+  Lemma In_inv a b m : In (a, b) m <-> In (b, a) (inv m).
+  Proof.
+    unfold inv. rewrite in_map_iff. split.
+    - intro H. exists (a, b). auto.
+    - intros ([x y] & H1 & H2). simpl in H1. inversion H1; subst. auto.
+  Qed.
+
+  Lemma steps_inv m : forall k x y, steps m k x y -> steps (inv m) k y x.
+  Proof.
+    induction 1 as [x|k x z y Hin Hs IH]; [constructor|].
+    apply steps_snoc with (z := z); [exact IH|]. apply (proj1 (In_inv x z m)). exact Hin.
+  Qed.
+
+  Lemma steps_end m : forall k x y, steps m k x y -> y = x \/ In y (map snd m).
+  Proof.
+    induction 1 as [x|k x z y Hin Hs IH]; auto.
+    destruct IH as [->|H]; auto. right. apply (in_map snd) in Hin. exact Hin.
+  Qed.
+
+  (* ---- termination: an injective map, started outside its image, never cycles *)
+  Definition rm (x : E) (m : list (E * E)) := filter (fun ab => negb (eqb x (fst ab))) m.
+
+  Lemma lookup_rm x z m : z <> x -> lookup z (rm x m) = lookup z m.
+  Proof.
+    intro N. induction m as [|[k v] r IH]; simpl; auto.
+    destruct (eqb x k) eqn:Ek; simpl.
+    - apply eqb_spec in Ek. subst k. destruct (eqb z x) eqn:Ez; [apply eqb_spec in Ez; congruence|auto].
+    - now rewrite IH.
+  Qed.
+
+  Lemma chase_rm x m : ~ In x (map snd m) -> forall f z, z <> x -> chase f m z = chase f (rm x m) z.
+  Proof.
+    intros NI. induction f as [|f IH]; intros z N; simpl; auto.
+    rewrite (lookup_rm x z m N). destruct (lookup z m) as [w|] eqn:El; auto.
+    apply IH. intro C. subst w. apply NI. apply lookup_some_In in El. apply (in_map snd) in El. exact El.
+  Qed.
+
+  Lemma NoDup_map_filter {A B} (g : A -> B) (p : A -> bool) (l : list A) : NoDup (map g l) -> NoDup (map g (filter p l)).
+  Proof.
+    induction l as [|a r IH]; simpl; auto. intro ND. inversion ND; subst.
+    destruct (p a); simpl; auto. constructor; auto.
+    intro C. apply H1. apply in_map_iff in C. destruct C as (b & Hb & Hin). apply filter_In in Hin.
+    apply in_map_iff. exists b. tauto.
+  Qed.
+
+  Lemma snd_inj (m : list (E * E)) a b y : NoDup (map snd m) -> In (a, y) m -> In (b, y) m -> a = b.
+  Proof.
+    induction m as [|[k v] r IH]; simpl; [tauto|]. intros ND [H1|H1] [H2|H2].
+    - congruence.
+    - inversion H1; subst. inversion ND; subst. exfalso. apply H3. apply (in_map snd) in H2. exact H2.
+    - inversion H2; subst. inversion ND; subst. exfalso. apply H3. apply (in_map snd) in H1. exact H1.
+    - inversion ND; subst. auto.
+  Qed.
+
+  Lemma filter_len_le {A} (p : A -> bool) (l : list A) : (length (filter p l) <= length l)%nat.
+  Proof. induction l as [|a r IH]; simpl; auto. destruct (p a); simpl; lia. Qed.
+
+  Lemma rm_length_lt x y (m : list (E * E)) : In (x, y) m -> (length (rm x m) < length m)%nat.
+  Proof.
+    induction m as [|[k v] r IH]; simpl; [tauto|]. intros [H|H].
+    - inversion H; subst. rewrite eqb_refl. simpl.
+      pose proof (filter_len_le (fun ab => negb (eqb x (fst ab))) r). unfold rm. lia.
+    - specialize (IH H). unfold rm in *. destruct (eqb x k); simpl; lia.
+  Qed.
+
+  Lemma chase_total : forall n m, length m = n -> NoDup (map fst m) -> NoDup (map snd m) ->
+    forall x, ~ In x (map snd m) -> forall fuel, (n < fuel)%nat -> exists y, chase fuel m x = Ok y.
+  Proof.
+    induction n as [n IH] using lt_wf_ind. intros m Lm ND1 ND2 x NI fuel Lf.
+    destruct fuel as [|f]; [lia|]. simpl.
+    destruct (lookup x m) as [y|] eqn:El; [|eauto].
+    pose proof (lookup_some_In _ _ _ El) as Hin.
+    assert (Nyx : y <> x).
+    { intro C. subst y. apply NI. apply (in_map snd) in Hin. exact Hin. }
+    rewrite (chase_rm x m NI f y Nyx).
+    pose proof (rm_length_lt _ _ _ Hin) as Lr.
+    apply (IH (length (rm x m))) with (m := rm x m); try lia; auto.
+    - apply NoDup_map_filter; auto.
+    - apply NoDup_map_filter; auto.
+    - intro C. apply in_map_iff in C. destruct C as ([a b] & Hb & Hin2). simpl in Hb. subst b.
+      apply filter_In in Hin2. destruct Hin2 as [Hin2 Hne]. simpl in Hne.
+      assert (a = x) by (eapply snd_inj; eauto). subst a. rewrite eqb_refl in Hne. discriminate.
+  Qed.
+
+  (* ---- segments of a list *)
+  Definition seg {A} (l : list A) (i c : nat) : list A := firstn c (skipn i l).
+
+  Lemma skipn_nth {A} : forall (l : list A) i a, nth_error l i = Some a -> skipn i l = a :: skipn (S i) l.
+  Proof.
+    induction l as [|x r IH]; intros [|i] a H; simpl in *; try discriminate.
+    - now inversion H.
+    - now apply IH.
+  Qed.
+
+  Lemma seg_S {A} (l : list A) i c a : nth_error l i = Some a -> seg l i (S c) = a :: seg l (S i) c.
+  Proof. intro H. unfold seg. rewrite (skipn_nth l i a H). reflexivity. Qed.
+
+  Lemma nth_error_lt {A} (l : list A) i : (i < length l)%nat -> exists a, nth_error l i = Some a.
+  Proof. intro H. destruct (nth_error l i) eqn:Eq; eauto. apply nth_error_None in Eq. lia. Qed.
+
+  Lemma seg_length {A} (l : list A) : forall c i, (i + c <= length l)%nat -> length (seg l i c) = c.
+  Proof. intros c i H. unfold seg. rewrite firstn_length, skipn_length. lia. Qed.
+
+  Lemma In_seg {A} (l : list A) : forall c i x, (i + c <= length l)%nat ->
+    (In x (seg l i c) <-> exists j, (i <= j < i + c)%nat /\ nth_error l j = Some x).
+  Proof.
+    induction c as [|c IH]; intros i x L.
+    - unfold seg. simpl. split; [tauto|]. intros (j & Hj & _). lia.
+    - destruct (nth_error_lt l i) as [a Ha]; [lia|]. rewrite (seg_S l i c a Ha). simpl. rewrite IH by lia. split.
+      + intros [->|(j & Hj & Hn)]; [exists i; split; auto; lia|exists j; split; auto; lia].
+      + intros (j & Hj & Hn). destruct (Nat.eq_dec j i) as [->|N]; [left; congruence|].
+        right. exists j. split; auto. lia.
+  Qed.
+
+  Lemma NoDup_app_both {A} : forall (l l' : list A), NoDup (l ++ l') -> NoDup l /\ NoDup l'.
+  Proof.
+    induction l as [|a r IH]; intros l' H; simpl in *; [split; [constructor|auto]|].
+    inversion H; subst. destruct (IH _ H3) as [X Y]. split; auto. constructor; auto.
+    intro C. apply H2. apply in_or_app. now left.
+  Qed.
+
+  Lemma NoDup_seg {A} (l : list A) i c : NoDup l -> NoDup (seg l i c).
+  Proof.
+    intro ND. unfold seg. rewrite <- (firstn_skipn i l) in ND. apply NoDup_app_both in ND. destruct ND as [_ ND].
+    rewrite <- (firstn_skipn c (skipn i l)) in ND. apply NoDup_app_both in ND. tauto.
+  Qed.
+
+  Lemma outside_not_in_seg {A} (l : list A) i c j x : NoDup l -> (i + c <= length l)%nat ->
+    nth_error l j = Some x -> ~ (i <= j < i + c)%nat -> ~ In x (seg l i c).
+  Proof.
+    intros ND L Hj Out C. apply In_seg in C; auto. destruct C as (j' & Hj' & Hn).
+    assert (j' = j).
+    { apply (proj1 (NoDup_nth_error l) ND); [lia|congruence]. }
+    lia.
+  Qed.
+
+  Lemma map_fst_combine {A B} : forall (a : list A) (b : list B), length a = length b -> map fst (combine a b) = a.
+  Proof. induction a as [|x r IH]; intros [|y s] L; simpl in *; try discriminate; auto. f_equal. auto. Qed.
+  Lemma map_snd_combine {A B} : forall (a : list A) (b : list B), length a = length b -> map snd (combine a b) = b.
+  Proof. induction a as [|x r IH]; intros [|y s] L; simpl in *; try discriminate; auto. f_equal. auto. Qed.
+  Lemma inv_combine : forall (a b : list E), inv (combine a b) = combine b a.
+  Proof. induction a as [|x r IH]; intros [|y s]; simpl; auto. f_equal. apply IH. Qed.
+
+  (* ---- the replacement maps *)
+  Lemma pmx_maps_spec p1 p2 : length p1 = length p2 -> forall cnt i a1 a2, (i + cnt <= length p1)%nat ->
+    pmx_maps E p1 p2 i cnt a1 a2 =
+      Ok (rev (combine (seg p2 i cnt) (seg p1 i cnt)) ++ a1, rev (combine (seg p1 i cnt) (seg p2 i cnt)) ++ a2).
+  Proof.
+    intros Len. induction cnt as [|c IH]; intros i a1 a2 L; cbn [pmx_maps].
+    - reflexivity.
+    - destruct (nth_error_lt p1 i) as [a Ha]; [lia|]. destruct (nth_error_lt p2 i) as [b Hb]; [lia|].
+      unfold nth_res. rewrite Ha, Hb. cbn [bind].
+      rewrite IH by lia. rewrite (seg_S p1 i c a Ha), (seg_S p2 i c b Hb). simpl.
+      now rewrite <- !app_assoc.
+  Qed.
+
+  Section Cut.
+    Variables p1 p2 : list E.
+    Variables cp1 cp2 : nat.
+    Hypothesis ND1 : NoDup p1.
+    Hypothesis ND2 : NoDup p2.
+    Hypothesis Perm : Permutation p1 p2.
+    Hypothesis Hcp : (cp1 <= cp2 < length p1)%nat.
+
+    Let n := length p1.
+    Let c := (S cp2 - cp1)%nat.
+    Let A := seg p1 cp1 c.
+    Let B := seg p2 cp1 c.
+    Let r1 := rev (combine B A).
+    Let r2 := rev (combine A B).
+    Definition outside (j : nat) : bool := Nat.ltb j cp1 || Nat.ltb cp2 j.
+
+    Lemma Len : length p1 = length p2.
+    Proof. now apply Permutation_length. Qed.
+
+    Lemma lenA : length A = c. Proof. apply seg_length. unfold c. lia. Qed.
+    Lemma lenB : length B = c. Proof. apply seg_length. rewrite <- Len. unfold c. lia. Qed.
+
+    Lemma fst_r1 x : In x (map fst r1) <-> In x B.
+    Proof. unfold r1. rewrite map_rev, <- in_rev, map_fst_combine; [tauto|]. now rewrite lenA, lenB. Qed.
+    Lemma snd_r1 x : In x (map snd r1) <-> In x A.
+    Proof. unfold r1. rewrite map_rev, <- in_rev, map_snd_combine; [tauto|]. now rewrite lenA, lenB. Qed.
+    Lemma fst_r2 x : In x (map fst r2) <-> In x A.
+    Proof. unfold r2. rewrite map_rev, <- in_rev, map_fst_combine; [tauto|]. now rewrite lenA, lenB. Qed.
+    Lemma snd_r2 x : In x (map snd r2) <-> In x B.
+    Proof. unfold r2. rewrite map_rev, <- in_rev, map_snd_combine; [tauto|]. now rewrite lenA, lenB. Qed.
+
+    Lemma nd_fst_r1 : NoDup (map fst r1).
+    Proof. unfold r1. rewrite map_rev, map_fst_combine by (now rewrite lenA, lenB).
+      eapply Permutation_NoDup; [apply Permutation_rev|]. now apply NoDup_seg. Qed.
+    Lemma nd_snd_r1 : NoDup (map snd r1).
+    Proof. unfold r1. rewrite map_rev, map_snd_combine by (now rewrite lenA, lenB).
+      eapply Permutation_NoDup; [apply Permutation_rev|]. now apply NoDup_seg. Qed.
+    Lemma nd_fst_r2 : NoDup (map fst r2).
+    Proof. unfold r2. rewrite map_rev, map_fst_combine by (now rewrite lenA, lenB).
+      eapply Permutation_NoDup; [apply Permutation_rev|]. now apply NoDup_seg. Qed.
+    Lemma nd_snd_r2 : NoDup (map snd r2).
+    Proof. unfold r2. rewrite map_rev, map_snd_combine by (now rewrite lenA, lenB).
+      eapply Permutation_NoDup; [apply Permutation_rev|]. now apply NoDup_seg. Qed.
+
+    Lemma len_r1 : (length r1 < S n)%nat.
+    Proof. unfold r1. rewrite rev_length, combine_length, lenA, lenB. unfold c, n. lia. Qed.
+    Lemma len_r2 : (length r2 < S n)%nat.
+    Proof. unfold r2. rewrite rev_length, combine_length, lenA, lenB. unfold c, n. lia. Qed.
+
+    Lemma inv_r2 : inv r2 = r1.
+    Proof. unfold r1, r2, inv. rewrite map_rev. f_equal. apply inv_combine. Qed.
+
+    Lemma outside_spec j : outside j = true <-> ~ (cp1 <= j < cp1 + c)%nat.
+    Proof.
+      unfold outside, c. rewrite orb_true_iff, !Nat.ltb_lt. lia.
+    Qed.
+
+    Lemma maps_eq : pmx_maps E p1 p2 cp1 c [] [] = Ok (r1, r2).
+    Proof. rewrite (pmx_maps_spec p1 p2 Len) by (unfold c; lia). now rewrite !app_nil_r. Qed.
+
+    (* outside the cut the chains terminate within the fuel *)
+    Lemma chase1_total j a : nth_error p1 j = Some a -> outside j = true -> exists x, chase (S n) r1 a = Ok x.
+    Proof.
+      intros Ha Out. apply (chase_total (length r1) r1 eq_refl nd_fst_r1 nd_snd_r1); [|apply len_r1].
+      rewrite snd_r1. apply (outside_not_in_seg p1 cp1 c j a ND1); auto; [unfold c; lia|now apply outside_spec].
+    Qed.
+    Lemma chase2_total j b : nth_error p2 j = Some b -> outside j = true -> exists y, chase (S n) r2 b = Ok y.
+    Proof.
+      intros Hb Out. apply (chase_total (length r2) r2 eq_refl nd_fst_r2 nd_snd_r2); [|apply len_r2].
+      rewrite snd_r2. apply (outside_not_in_seg p2 cp1 c j b ND2); auto; [rewrite <- Len; unfold c; lia|now apply outside_spec].
+    Qed.
+
+    Lemma fill_ok : forall cnt i, (i + cnt <= n)%nat ->
+      exists o1 o2, pmx_fill E eqb p1 p2 cp1 cp2 n r1 r2 i cnt = Ok (o1, o2) /\ length o1 = cnt /\
+        forall k, (k < cnt)%nat -> exists a b x, nth_error p1 (i + k) = Some a /\ nth_error p2 (i + k) = Some b /\
+          nth_error o1 k = Some x /\ (if outside (i + k) then chase (S n) r1 a = Ok x else x = b).
+    Proof.
+      induction cnt as [|m IH]; intros i L; cbn [pmx_fill].
+      - exists [], []. repeat split; auto. intros k Hk. lia.
+      - destruct (nth_error_lt p1 i) as [a Ha]; [unfold n in L; lia|].
+        destruct (nth_error_lt p2 i) as [b Hb]; [rewrite <- Len; unfold n in L; lia|].
+        unfold nth_res. rewrite Ha, Hb. cbn [bind].
+        destruct (IH (S i)) as (o1 & o2 & Ef & Lo & Sp); [lia|].
+        fold (outside i). destruct (outside i) eqn:Eo.
+        + destruct (chase1_total i a Ha Eo) as [x Ex]. destruct (chase2_total i b Hb Eo) as [y Ey].
+          rewrite Ex, Ey. cbn [bind]. rewrite Ef. cbn [bind].
+          exists (x :: o1), (y :: o2). split; [reflexivity|]. split; [simpl; lia|].
+          intros [|k] Hk.
+          * exists a, b, x. rewrite Nat.add_0_r, Eo. auto.
+          * destruct (Sp k) as (a' & b' & x' & H1 & H2 & H3 & H4); [lia|].
+            exists a', b', x'. replace (i + S k)%nat with (S i + k)%nat by lia. auto.
+        + cbn [bind]. rewrite Ef. cbn [bind].
+          exists (b :: o1), (a :: o2). split; [reflexivity|]. split; [simpl; lia|].
+          intros [|k] Hk.
+          * exists a, b, b. rewrite Nat.add_0_r, Eo. auto.
+          * destruct (Sp k) as (a' & b' & x' & H1 & H2 & H3 & H4); [lia|].
+            exists a', b', x'. replace (i + S k)%nat with (S i + k)%nat by lia. auto.
+    Qed.
+
+    Theorem pmx_cut_half : exists o1 o2, pmx_cut E eqb p1 p2 cp1 cp2 = Ok (o1, o2) /\ Permutation p1 o1.
+    Proof.
+      unfold pmx_cut. fold n. fold c. rewrite maps_eq. cbn [bind].
+      destruct (fill_ok n 0) as (o1 & o2 & Ef & Lo & Sp); [lia|].
+      exists o1, o2. split; [exact Ef|].
+      apply NoDup_Permutation_bis; auto; [fold n; lia|].
+      intros z Hz.
+      destruct (mem z B) eqn:Em.
+      - (* z was exchanged into the cut *)
+        apply mem_In in Em. apply In_seg in Em; [|rewrite <- Len; unfold c; lia].
+        destruct Em as (j & Hj & Hn).
+        destruct (Sp j) as (a & b & x & H1 & H2 & H3 & H4); [unfold n, c in *; lia|]. cbn [Nat.add] in H1, H2, H4.
+        assert (Eo : outside j = false).
+        { destruct (outside j) eqn:Eo; auto. apply outside_spec in Eo. lia. }
+        rewrite Eo in H4. subst x. apply nth_error_In with (n := j). congruence.
+      - (* z is the end of a chain started outside the cut: follow replacement2 backwards *)
+        apply mem_false in Em.
+        assert (NB : ~ In z (map snd r2)) by (now rewrite snd_r2).
+        destruct (chase_total (length r2) r2 eq_refl nd_fst_r2 nd_snd_r2 z NB (S n) len_r2) as [w Ew].
+        destruct (chase_steps r2 _ _ _ Ew) as (k & Lk & St & Nw).
+        apply steps_inv in St. rewrite inv_r2 in St.
+        assert (Cw : chase (S n) r1 w = Ok z).
+        { apply (steps_chase r1 nd_fst_r1 k w z St); auto. now rewrite fst_r1. }
+        assert (Hw : In w p1).
+        { apply steps_inv in St. destruct (steps_end _ _ _ _ St) as [->|Hs]; auto.
+          unfold inv in Hs. rewrite map_map in Hs. simpl in Hs.
+          change (In w (map fst r1)) in Hs. apply fst_r1 in Hs.
+          apply Permutation_in with (l := p2); [now symmetry|].
+          apply In_seg in Hs; [|rewrite <- Len; unfold c; lia]. destruct Hs as (j & _ & Hn). eapply nth_error_In; eauto. }
+        apply In_nth_error in Hw. destruct Hw as [j Hj].
+        assert (Lj : (j < n)%nat) by (unfold n; apply nth_error_Some; congruence).
+        destruct (Sp j Lj) as (a & b & x & H1 & H2 & H3 & H4). cbn [Nat.add] in H1, H2, H4.
+        assert (a = w) by congruence. subst a.
+        assert (Eo : outside j = true).
+        { destruct (outside j) eqn:Eo; auto. exfalso. apply Nw. rewrite fst_r2.
+          apply In_seg; [unfold c; lia|]. exists j. split; auto.
+          assert (~ ~ (cp1 <= j < cp1 + c)%nat) by (intro C; apply outside_spec in C; congruence). lia. }
+        rewrite Eo in H4. apply nth_error_In with (n := j). congruence.
+    Qed.
+  End Cut.
+
+  Lemma pmx_cut_sym p1 p2 cp1 cp2 o1 o2 : length p1 = length p2 ->
+    pmx_cut E eqb p1 p2 cp1 cp2 = Ok (o1, o2) -> pmx_cut E eqb p2 p1 cp1 cp2 = Ok (o2, o1).
+  Proof.
+    intros L H. unfold pmx_cut in *. rewrite <- L.
+    destruct (pmx_maps E p1 p2 cp1 (S cp2 - cp1) [] []) as [[m1 m2]|] eqn:Em; cbn [bind] in *; [|discriminate].
+    rewrite (pmx_maps_sym _ _ _ _ _ _ _ _ Em). cbn [bind]. now apply pmx_fill_sym.
+  Qed.
+
+  (* PMX on two duplicate-free parents over the same elements, any cut: the replacement chains end
+     within fuel n+1 and both offspring are permutations of the parents' elements *)
+  Theorem pmx_cut_perm p1 p2 cp1 cp2 : NoDup p1 -> NoDup p2 -> Permutation p1 p2 ->
+    (cp1 <= cp2 < length p1)%nat ->
+    exists o1 o2, pmx_cut E eqb p1 p2 cp1 cp2 = Ok (o1, o2) /\ Permutation p1 o1 /\ Permutation p2 o2.
+  Proof.
+    intros N1 N2 Pm Hc.
+    destruct (pmx_cut_half p1 p2 cp1 cp2 N1 N2 Pm Hc) as (o1 & o2 & E1 & P1).
+    assert (L : length p1 = length p2) by now apply Permutation_length.
+    assert (Hc' : (cp1 <= cp2 < length p2)%nat) by lia.
+    destruct (pmx_cut_half p2 p1 cp1 cp2 N2 N1 (Permutation_sym Pm) Hc') as (o2' & o1' & E2 & P2).
+    rewrite (pmx_cut_sym _ _ _ _ _ _ L E1) in E2. inversion E2; subst.
+    exists o1', o2'. auto.
+  Qed.
+
+  Lemma pmx_lists_ok p1 p2 t : NoDup p1 -> NoDup p2 -> Permutation p1 p2 -> (0 < length p1)%nat ->
+    py_safe (pmx_lists E eqb p1 p2 t) /\
+    forall o1 o2 t', pmx_lists E eqb p1 p2 t = Ok (o1, o2, t') -> Permutation p1 o1 /\ Permutation p2 o2.
+  Proof.
+    intros N1 N2 Pm L0. unfold pmx_lists.
+    pose proof (draw_two_safe (length p1) t L0) as Sd.
+    destruct (draw_two (length p1) t) as [[[c1 c2] t1]|e] eqn:Ed; cbn [bind].
+    - apply draw_two_spec in Ed. destruct Ed as (L1 & L2 & _).
+      set (cp1 := if Nat.ltb c2 c1 then c2 else c1). set (cp2 := if Nat.ltb c2 c1 then c1 else c2).
+      assert (Hc : (cp1 <= cp2 < length p1)%nat).
+      { unfold cp1, cp2. destruct (Nat.ltb c2 c1) eqn:El; [apply Nat.ltb_lt in El|apply Nat.ltb_ge in El]; lia. }
+      destruct (pmx_cut_perm p1 p2 cp1 cp2 N1 N2 Pm Hc) as (o1 & o2 & Ec & P1 & P2).
+      rewrite Ec. cbn [bind]. split; [exact I|]. intros x1 x2 t' H. inversion H; subst. auto.
+    - split; [exact Sd|]. intros; discriminate.
+  Qed.
+
+  Lemma pmx_step_valid p : xstep_valid (pmx_step E eqb p).
+  Proof.
+    intros ty a b t a' b' t1 W Va Vb H. destruct ty as [| |els|]; simpl in H; try (inversion H; fail).
+    destruct (get_unif t) as [[u t0]|]; simpl in H; [|discriminate].
+    destruct (xleb u p); [|inversion H].
+    destruct a as [| |pa|]; simpl in Va; try contradiction.
+    destruct b as [| |pb|]; simpl in Vb; try contradiction.
+    destruct W as [NDe Le].
+    assert (N1 : NoDup pa) by (eapply Permutation_NoDup; eauto).
+    assert (N2 : NoDup pb) by (eapply Permutation_NoDup; eauto).
+    assert (Pm : Permutation pa pb) by (eapply perm_trans; [symmetry; exact Va|exact Vb]).
+    assert (L0 : (0 < length pa)%nat) by (apply Permutation_length in Va; lia).
+    destruct (pmx_lists_ok pa pb t0 N1 N2 Pm L0) as [_ Hok].
+    destruct (pmx_lists E eqb pa pb t0) as [[[o1 o2] t2]|] eqn:El; cbn [bind] in H; [|discriminate].
+    destruct (Hok _ _ _ eq_refl) as [P1 P2]. inversion H; subst. simpl.
+    split; [exact (perm_trans Va P1)|exact (perm_trans Vb P2)].
+  Qed.
+
+  Lemma pmx_step_safe p : xstep_safe (pmx_step E eqb p).
+  Proof.
+    intros ty a b t W Va Vb. destruct ty as [| |els|]; simpl; try exact I.
+    apply py_safe_bind; [apply get_unif_safe|]. intros [u t0] _.
+    destruct (xleb u p); [|exact I].
+    destruct a as [| |pa|]; simpl in Va; try contradiction.
+    destruct b as [| |pb|]; simpl in Vb; try contradiction.
+    destruct W as [NDe Le].
+    assert (N1 : NoDup pa) by (eapply Permutation_NoDup; eauto).
+    assert (N2 : NoDup pb) by (eapply Permutation_NoDup; eauto).
+    assert (Pm : Permutation pa pb) by (eapply perm_trans; [symmetry; exact Va|exact Vb]).
+    assert (L0 : (0 < length pa)%nat) by (apply Permutation_length in Va; lia).
+    destruct (pmx_lists_ok pa pb t0 N1 N2 Pm L0) as [Sf _].
+    apply py_safe_bind; [exact Sf|]. intros [[o1 o2] t2] _. exact I.
+  Qed.
+
+  (* PMX: both offspring are permutations of the declared elements, the chain-following loops
+     never exhaust their fuel (no EFuel is a case of py_safe), flags, identities *)
+  Theorem pmx_valid pr ts fresh p1 p2 t cs f t' :
+    Forall wf_type ts -> valid_sol ts p1 -> valid_sol ts p2 ->
+    pmx E P eqb pr ts fresh [p1; p2] t = Ok (cs, f, t') -> two_children_ok ts fresh p1 p2 cs f.
+  Proof. intros. eapply crossover_of_valid; eauto using pmx_step_valid. Qed.
+
+  Theorem pmx_safe pr ts fresh p1 p2 t :
+    Forall wf_type ts -> valid_sol ts p1 -> valid_sol ts p2 -> py_safe (pmx E P eqb pr ts fresh [p1; p2] t).
+  Proof. intros. apply crossover_of_safe; auto using pmx_step_safe. Qed.
 End OpsProofs.
+
+(* ================================================================ non-vacuity: concrete runs (E = Z, payload = unit) *)
+Lemma Zeqb_spec : forall x y : Z, Z.eqb x y = true <-> x = y.
+Proof. intros. apply Z.eqb_eq. Qed.
+
+Definition exd_types : list (vtype Z) :=
+  [TPerm [1; 2; 3; 4; 5]%Z; TSubset [10; 11; 12; 13]%Z 2; TBinary 3].
+Definition exd_p1 : sol Z unit := mkSol 0 [VPerm [1; 2; 3; 4; 5]%Z; VSub [10; 11]%Z; VBits [true; false; true]] true tt.
+Definition exd_p2 : sol Z unit := mkSol 1 [VPerm [3; 5; 1; 2; 4]%Z; VSub [12; 10]%Z; VBits [false; false; false]] true tt.
+
+Ltac nodup_z := repeat (constructor; [simpl; intuition discriminate|]); constructor.
+Ltac incl_z := let x := fresh "x" in let H := fresh "H" in intros x H; simpl in *; intuition.
+
+Example exd_wf : Forall (wf_type Z) exd_types.
+Proof.
+  constructor; [split; [nodup_z|simpl; lia]|].
+  constructor; [split; [nodup_z|lia]|].
+  constructor; [exact I|constructor].
+Qed.
+
+Example exd_valid : valid_sol Z unit exd_types exd_p1 /\ valid_sol Z unit exd_types exd_p2.
+Proof.
+  split.
+  - constructor; [apply Permutation_refl|].
+    constructor; [split; [nodup_z|split; [reflexivity|incl_z]]|].
+    constructor; [reflexivity|constructor].
+  - constructor.
+    { apply NoDup_Permutation_bis; [nodup_z|simpl; lia|incl_z]. }
+    constructor; [split; [nodup_z|split; [reflexivity|incl_z]]|].
+    constructor; [reflexivity|constructor].
+Qed.
+
